@@ -214,8 +214,13 @@ impl PathTpc {
                 for (prev, curr) in link.headings.windows(2).map(|x| (&x[0], &x[1])) {
                     let length = curr.offset - prev.offset;
 
+                    // `rem_euclid` rather than `%`: `%` keeps the sign of the dividend, so a heading
+                    // change below -pi (e.g. 350 deg -> 10 deg) would not be wrapped into (-pi, pi]
                     let curvature = (-uc::REV / 2.0
-                        + (curr.heading - prev.heading + uc::REV / 2.0) % uc::REV)
+                        + (curr.heading - prev.heading + uc::REV / 2.0)
+                            .value
+                            .rem_euclid(uc::REV.value)
+                            * uc::RAD)
                         .abs()
                         / length;
                     let one_degree = uc::DEG / (uc::FT * 100.0);
